@@ -654,7 +654,19 @@ fn run_props(m: &BTreeMap<String, String>, want: Option<&str>) -> String {
     other_handles(&mut ctx);
     let mut last = String::new();
     for _ in 0..ORDER_TRIES {
-        handles(&mut ctx).insert(h2.to_string(), StateValue::SubState(HashMap::new()));
+        // the target map is not always empty: every second run it already holds some of the keys with
+        // STALE values (loading overwrites them) — the key set afterwards is the same
+        let mut target: HashMap<String, StateValue> = HashMap::new();
+        // (only where the model expects the round trip to give the map back: an entry the recorded
+        // defects of the writer drop would leave its stale value behind)
+        if crate::hash_str(&enc_vars(m)) % 2 == 0 && want == Some(format!("ok {}", enc_vars(m)).as_str()) {
+            for (i, k) in m.keys().enumerate() {
+                if i % 2 == 0 {
+                    target.insert(k.clone(), StateValue::String("stale value".to_string()));
+                }
+            }
+        }
+        handles(&mut ctx).insert(h2.to_string(), StateValue::SubState(target));
         last = props_once(&mut ctx, h1, h2);
         if want.is_none() || want == Some(last.as_str()) || m.len() < 2 {
             break;
@@ -1122,6 +1134,8 @@ impl Prop for C17Prop {
             // scalar documents whose text is the NAME of a variable that exists while the commands
             // run (the harness's own argument variables, `name`, `document`, `list` + `list.length`)
             "\"name\"", "\"document\"", "\"list\"", "\"c17arg0\"", "\"c17arg1\"", "[\"name\"]", "{\"name\":\"name\"}",
+            // different arrays of one length whose items read the same when joined by commas
+            "{\"raw\":[\"name,age\",\"city\"],\"fixed\":[\"name\",\"age,city\"]}", "[[\"a,b\",\"c\"],[\"a\",\"b,c\"]]", "[[\"\",\",\"],[\",\",\"\"]]", "[[1,2],[\"1\",\"2\"]]", "[[\"1,2\"],[\"1\",\"2\"]]", "[[\"x\"],[\"x\"],[\"x\",\"x\"]]",
         ] {
             let v: Value = serde_json::from_str(t).unwrap();
             out.push(json_case(&v));
